@@ -105,6 +105,58 @@ def program(L: str, data: list) -> dict:
                dict(id="t3", op="arrange", src="t2", by=[{"c": "id"}]), dict(id="x", op="export", src="t3", ordered=True)])
 
 
+def program_value(v, colname: str) -> dict:
+    """the non-string python values of the property (null, booleans, negative numbers, zero) in every operator position"""
+    x = {"col": ["t0", colname]}
+    lit = {"lit": v}
+    cols = [
+        ["eq", {"fn": "equal", "args": [x, lit]}],
+        ["ne", {"fn": "not_equal", "args": [x, lit]}],
+        ["isin", {"fn": "is_in", "args": [x, lit, x]}],
+        ["cs", {"case": [[{"fn": "equal", "args": [x, lit]}, lit]], "default": x}],
+        ["cs_null", {"case": [[{"fn": "is_null", "args": [x]}, lit]], "default": x}],
+        ["fl", {"fn": "fill_null", "args": [x, lit]}],
+        ["co", {"fn": "coalesce", "args": [lit, x]}],
+    ]
+    if v is not None:
+        cols += [["const", lit], ["eq_rev", {"fn": "equal", "args": [lit, x]}]]
+        if not isinstance(v, bool):
+            cols += [["lt", {"fn": "less_than", "args": [x, lit]}], ["sum", {"fn": "add", "args": [x, lit]}], ["diff", {"fn": "sub", "args": [x, lit]}],
+                     ["prod", {"fn": "mul", "args": [lit, x]}], ["neg", {"fn": "neg", "args": [{"fn": "add", "args": [x, lit]}]}]]
+    data = {"i": [3, None, -3, 0, 7], "f": [1.5, None, -2.5, 0.0, 2.5], "b": [True, None, False, True, False], "s": ["a", None, "", "None", "NULL"]}
+    dts = {"i": "int64", "f": "float64", "b": "bool", "s": "string"}
+    pred = {"fn": "bool_or", "args": [{"fn": "is_null", "args": [{"fn": "equal", "args": [x, lit]}]}, {"lit": True}]}
+    return dict(
+        tables=[dict(name="g", cols=[dict(name="id", dtype="int64", vals=list(range(5))), dict(name=colname, dtype=dts[colname], vals=data[colname])])],
+        stmts=[dict(id="t0", op="source", table="g"), dict(id="t1", op="mutate", src="t0", cols=cols),
+               dict(id="t2", op="filter", src="t1", preds=[pred]),
+               dict(id="t3", op="arrange", src="t2", by=[{"c": "id"}]), dict(id="x", op="export", src="t3", ordered=True)])
+
+
+VALUE_CASES = [(None, "s"), (None, "i"), (None, "b"), (True, "b"), (False, "b"), (-3, "i"), (0, "i"), (-2.5, "f"), (-3, "f"), (0.0, "f")]
+
+
+def value_stream():
+    diffs, n = [], 0
+    for v, cn in VALUE_CASES:
+        prog = program_value(v, cn)
+        res = {}
+        for be in ("polars", "sqlite"):
+            obs = P.run_program(prog, be, observe_cache=False)
+            ex = obs[-1]
+            if ex["outcome"] != "ok":
+                err = next((o for o in obs if o["outcome"] == "error"), ex)
+                diffs.append(dict(kind="execution_error", backend=be, literal=repr(v), column=cn, exc=err.get("exc"), msg=(err.get("msg") or "")[:160]))
+            else:
+                res[be] = ex["frame"]
+        if len(res) == 2:
+            n += len(res["polars"]["names"]) * 5
+            d = oracle.compare_frames(res["polars"], res["sqlite"], ordered=True)
+            if d:
+                diffs.append(dict(kind="backends_differ", literal=repr(v), column=cn, detail=d))
+    return diffs, n
+
+
 def skeleton_of(L, data):
     obs = P.run_program(program(L, data), "sqlite_nodata", observe_cache=False)
     ex = obs[-1]
@@ -175,6 +227,9 @@ def run(tier: str, seed: int) -> int:
                 corr.append(dict(kind="like_pattern", literal=L, model_pattern=ma, string_tokens=strs[:12]))
             if L and L not in strs:
                 corr.append(dict(kind="literal_not_a_token", literal=L, string_tokens=strs[:12]))
+    vd, n_val = value_stream()
+    diffs += vd
+    n_eval += n_val
     groups = {}
     for d in diffs:
         groups.setdefault(d["kind"], []).append(d)
